@@ -82,6 +82,8 @@ class SpecEval(object):
             raise SpecError('unary %s' % op)
         if k == 'cond':
             c = self.boolean(e[1])
+            if c.is_bool():
+                return self.ev(e[2]) if c.val else self.ev(e[3])
             a, b = self.ev(e[2]), self.ev(e[3])
             if a == ('nil',):
                 a = self.nil_like(b)
@@ -176,11 +178,20 @@ class SpecEval(object):
 
     def binop(self, op, a, b):
         if op == '&&':
-            return and_(self.boolean(a), self.boolean(b))
+            x = self.boolean(a)
+            if x.is_bool() and not x.val:
+                return FALSE
+            return and_(x, self.boolean(b))
         if op == '||':
-            return or_(self.boolean(a), self.boolean(b))
+            x = self.boolean(a)
+            if x.is_bool() and x.val:
+                return TRUE
+            return or_(x, self.boolean(b))
         if op == '==>':
-            return implies(self.boolean(a), self.boolean(b))
+            x = self.boolean(a)
+            if x.is_bool() and not x.val:
+                return TRUE
+            return implies(x, self.boolean(b))
         if op == '<==>':
             return eq(self.boolean(a), self.boolean(b))
         if op in ('==', '!='):
@@ -251,6 +262,19 @@ class SpecEval(object):
             raise SpecError('%s(k, lo, hi, body) expected' % which)
         name = args[0][1]
         lo, hi = self.term(args[1]), self.term(args[2])
+        if lo.is_int() and hi.is_int() and hi.val - lo.val <= 64 and self.ex.expand_small_quants:
+            parts = []
+            saved = self.bound.get(name)
+            try:
+                for v_ in range(lo.val, hi.val):
+                    self.bound[name] = I(v_)
+                    parts.append(self.boolean(args[3]))
+            finally:
+                if saved is None:
+                    self.bound.pop(name, None)
+                else:
+                    self.bound[name] = saved
+            return and_(*parts) if which == 'forall' else or_(*parts)
         n = self.ex.ctx.counter.get('q:' + name, 0)
         self.ex.ctx.counter['q:' + name] = n + 1
         k = const('%s?%d' % (name, n), INT)
